@@ -246,4 +246,16 @@ example : rejects (mapSite W "Contour.reverse" (dropKw "pointClass")) = true ∧
     classVia (mapSite W "Contour.reverse" (dropKw "pointClass")) cfgA (toContour ++ ["Contour.reverse"]) "Contour.addPoint"
       = some (.builtin "Point") := by decide +kernel
 
+/-- `anchorClass = Anchor` unconditionally in `Glyph.__init__` (the registration is overwritten) -/
+example : rejects (mapInit W "Glyph" fun i => i.map fun st =>
+    if st = .dflt "anchorClass" "Anchor" then .force "anchorClass" "Anchor" else st) = true := by decide +kernel
+
+/-- `if anchorClass is None: anchorClass = Guideline` (wrong default for the role) -/
+example : rejects (mapInit W "Glyph" fun i => i.map fun st =>
+    if st = .dflt "anchorClass" "Anchor" then .dflt "anchorClass" "Guideline" else st) = true := by decide +kernel
+
+/-- `self._anchorClass = anchorClass` moved in front of the defaulting (the slot can hold `None`) -/
+example : rejects (mapInit W "Glyph" fun i => .store "_anchorClass" "anchorClass" :: i.filter fun st =>
+    st ≠ .store "_anchorClass" "anchorClass") = true := by decide +kernel
+
 end DefconModel.Props.C15
